@@ -46,7 +46,7 @@ def generate(r, tier):
     prog = kgen.gen_program(r, lo=2, hi=22 if big else 10)
     sc = {"prog": prog, "parser": kgen.pick_parser(r, prog, 0.05), "hash_salt": r.getrandbits(32),
           "chunk": r.choice([4, 16, 16, 64, 8192])}
-    sc["prog2"] = kgen.evolve(r, prog, remove_mentioned=0.5) if r.random() < 0.3 else None
+    sc["prog2"] = kgen.evolve(r, prog, remove_mentioned=0.5, retype=0.3) if r.random() < 0.3 else None
     if sc["prog2"] and not kgen.v2_ok(sc["prog2"]):
         sc["parser"] = 1
     sc["renames"], _ = kgen.rename_table(r, prog) if r.random() < 0.4 else (None, [])
@@ -310,7 +310,8 @@ def execute(sc, ctx):
                             f"but {_relpath(n, d)} was not touched since the earlier one (step {steps[idx][0]}, {how}"
                             f"{', long-lived instance' if reuse else ''})")
         if state["clean"]:
-            allowed = {_relpath(n, d) for n in chg_r}
+            # (a change of type with the same value text changes the recorded line and the header, though not str_value)
+            allowed = {_relpath(n, d) for n in chg_r | chg_h}
             for tick, kind, path, _info in fs.ops_since(t0):
                 if kind == "touch" and path not in allowed:
                     ctx.violate("C12/over-touch" + dtag, f"{path} touched by the sync of step {steps[idx][0]} into {DIRNAMES[d]} although no option mapping to it changed")
